@@ -22,11 +22,10 @@ class DjangoModelWithoutDunderStrTransformer(
         cst.BaseStatement, cst.FlattenSentinel[cst.BaseStatement], cst.RemovalSentinel
     ]:
 
-        # a class spans several lines: line includes/excludes name its `class Name(...)` line,
+        # a class spans several lines: findings (Sonar reports the class name) and line
+        # includes/excludes are matched against the name in its `class Name(...)` line,
         # which is also the line the change is reported on
-        if not self.filter_by_path_includes_or_excludes(
-            self.node_position(original_node.name)
-        ):
+        if not self.node_is_selected(original_node.name):
             return updated_node
         if not any(
             self.find_base_name(base.value) == "django.db.models.Model"
